@@ -12,13 +12,15 @@ FLAVORS = ["memb", "mb", "qsbr", "bp"]
 def classes_of(text, res):
     cl = [name for bit, name in SCEN_FLAGS.items() if res["flags"] >> bit & 1]
     cl.append("flavor_" + text.split("\n", 1)[0].split("_", 1)[1])
-    for l in text.split("\n")[1:9]:
+    for l in text.split("\n")[1:11]:
         if l.startswith("cfg mm "):
             cl.append("mm_" + ("order", "chunk", "mmap")[int(l.split()[2])])
         if l.startswith("cfg hash "):
-            cl.append("hash_" + ("identity", "all_collide", "high_bits", "small_collide")[int(l.split()[2])])
+            cl.append("hash_" + ("identity", "all_collide", "high_bits", "small_collide", "top_buckets")[int(l.split()[2])])
         if l.startswith("cfg flags ") and int(l.split()[2]) & 1:
             cl.append("auto_resize")
+        if l.startswith("cfg ncpus "):
+            cl.append("possible_cpus_" + l.split()[2])
     if text.startswith("scen lfht_qsbr"):
         cl.append("explicit_resize_excluded_known_finding_qsbr")
     return cl
